@@ -2,7 +2,8 @@
 import replica, vlib
 
 ARCH = dict(MaxBlocks=2, MaxChecks=3, MaxTx=2, Deviations=set())
-ARCH_DEVS = ["proposalsUnboundInBegin", "feeOptUnboundInBegin", "checkUpdatesMemory", "olvmValidateThroughCache"]
+ARCH_DEVS = ["proposalsUnboundInBegin", "feeOptUnboundInBegin", "checkUpdatesMemory", "olvmValidateThroughCache",
+             "validatorListCachedByVersion", "stakeMapOutsideSession"]
 
 
 def run(ctx, replay):
